@@ -248,16 +248,26 @@ func funcFieldRule(c *Ctx, r *Report, rule string, reach map[*ssa.Function]bool)
 			if !ok {
 				continue
 			}
-			if _, isFA := ld.X.(*ssa.FieldAddr); !isFA {
+			what := "field"
+			switch ld.X.(type) {
+			case *ssa.FieldAddr:
+			case *ssa.IndexAddr:
+				what = "element" // a table of functions: an entry that was never filled is a nil function too
+			default:
 				continue
 			}
 			fieldPath := pathOf(ld)
-			o := r.Add(rule, fnName(fn), "call through field "+c.exprAt(fn, ci.Pos()), c.pos(ci.Pos()))
+			o := r.Add(rule, fnName(fn), "call through "+what+" "+c.exprAt(fn, ci.Pos()), c.pos(ci.Pos()))
+			if srcs, ok := h1NonNilFunc(call.Value); ok {
+				// ip_h1.go: a field of a local table every entry of which was filled with a function
+				o.OK("the value called is one of %d function value(s) stored in a local aggregate that does not escape; every entry that may be read is written before the call", len(srcs))
+				continue
+			}
 			guarded, _ := guard.nonNil(ci, ld, nil, nil, 0)
 			if guarded {
 				o.OK("a nil %s is excluded on every path to the call (dominating test or early exit clause)", fieldPath)
 			} else {
-				o.Bad("the func-typed field %s is called without a dominating non-nil test: a remote that triggers this path crashes the session when the callback is not registered", fieldPath)
+				o.Bad("the func-typed %s %s is called without a dominating non-nil test: a remote that triggers this path crashes the session when the callback is not registered", what, fieldPath)
 			}
 		}
 	}
